@@ -104,3 +104,20 @@ func FilterOneCasePerChoice(order []string, c Conf) Conf {
 	}
 	return out
 }
+
+// EnforceChoices applies what a YANG server does on every edit (RFC 7950 7.9): when a node of one case of a choice
+// is written, the nodes of all other cases of that choice instance go away. written lists the paths an edit wrote.
+func EnforceChoices(c Conf, written []IPath) {
+	for _, w := range written {
+		for _, wr := range ChoiceRefs(w) {
+			for k := range c {
+				for _, kr := range ChoiceRefs(MustCanon(k)) {
+					if kr.Inst == wr.Inst && kr.Case != wr.Case {
+						delete(c, k)
+						break
+					}
+				}
+			}
+		}
+	}
+}
